@@ -12,6 +12,12 @@
 // alphabet that is private to (attempt, stream) — so bytes of an earlier attempt
 // or of the other stream can never stand in for the bytes that are looked for.
 //
+// A fourth stream mode, "both concurrent", writes stdout and stderr at the same
+// time from two background loops (one short line per write, staged start); the
+// interleaving inside os/exec cannot be scheduled, so such a member is repeated a
+// fixed number of times, every repetition in a process of its own (runIsolated)
+// under alternating runtime settings; a process that dies is a violation.
+//
 // Oracle, evaluated after Schedule returned (exactly the property): the file
 // named by the node's final State().Log contains every byte the last attempt
 // wrote to stdout and to stderr (stderr: in the `stderr:` file instead when one
